@@ -20,11 +20,12 @@ Definition result_defined (r : Z) : bool := (0 <=? r) && (r <=? 4).
        node.Suicide()
        event.Root.AddFieldNoAlloc(event.Root, p.names[index]).MutateToNode(node) }
      return ActionPass
-   The name is ONE key of the root (never parsed as a selector).  A path may be empty (the config
-   key "_" is unescaped to "" and cfg.ParseFieldSelector("") is the empty path): Dig() then answers
-   the root itself, Suicide spares it, and MutateToNode copies the root's field list into the new
-   field of the root: the node arrays form a cycle, the event is no finite document any more.
-   The model answers Err 1 there (recorded finding C13-rename-empty-path-cycle). *)
+   The name is ONE key of the root (never parsed as a selector).  On an EMPTY path Dig() answers the
+   root itself, Suicide spares it, and MutateToNode copies the root's field list into the new field of
+   the root: the node arrays form a cycle, the event is no finite document any more; the model function
+   answers Err 1 there.  No accepted configuration has an empty path (rename_ops below: Start drops
+   the key that is empty after unescaping; before fix 4232b91 the key "_" slipped through, finding
+   C13-rename-empty-path-cycle). *)
 Definition rename_step (preserve : bool) (root : json) (pn : list bytes * bytes) : res json :=
   let '(path, name) := pn in
   if preserve && is_some (jdig root [name]) then Ok root else
@@ -45,6 +46,25 @@ Fixpoint rename_loop (preserve : bool) (root : json) (ops : list (list bytes * b
 
 Definition rename_do (preserve : bool) (ops : list (list bytes * bytes)) (root : json) : res (Z * json) :=
   r <- rename_loop preserve root ops ;; Ok (APass, r).
+
+(* Start: what becomes of the configuration's (key, name) pairs (override already taken out):
+     unescapeMap: if key != "" && key[0] == '_' { key = key[1:] }; if key == "" { return }; newConfig.Append(key, value)
+     conf.ForEach: p.paths = append(p.paths, cfg.ParseFieldSelector(path)); p.names = append(p.names, name)
+   [sel] stands for cfg.ParseFieldSelector. *)
+Definition unescape_key (k : bytes) : bytes := match k with 95%N :: r => r | _ => k end.
+Fixpoint unescape_map (cfg : list (bytes * bytes)) : list (bytes * bytes) :=
+  match cfg with
+  | [] => []
+  | (k, v) :: r =>
+      match unescape_key k with
+      | [] => unescape_map r
+      | k' => (k', v) :: unescape_map r
+      end
+  end.
+Definition rename_ops (sel : bytes -> list bytes) (cfg : list (bytes * bytes)) : list (list bytes * bytes) :=
+  map (fun kv => (sel (fst kv), snd kv)) (unescape_map cfg).
+Definition rename_cfg_do (sel : bytes -> list bytes) (preserve : bool) (cfg : list (bytes * bytes)) (root : json)
+  : res (Z * json) := rename_do preserve (rename_ops sel cfg) root.
 
 (* ---- move ---------------------------------------------------------------------------------------
      targetNode := pipeline.CreateNestedField(event.Root, p.config.Target_)
